@@ -52,6 +52,8 @@ func (registry *AddressesRegistry) Copy() application.AddressesManager {
 }
 
 func (registry *AddressesRegistry) Filter(addresses []string) []string {
+	registry.registeredMutex.RLock()
+	defer registry.registeredMutex.RUnlock()
 	var newAddresses []string
 	for _, address := range addresses {
 		if !registry.registeredAddresses[address] {
@@ -62,10 +64,14 @@ func (registry *AddressesRegistry) Filter(addresses []string) []string {
 }
 
 func (registry *AddressesRegistry) IsRegistered(address string) bool {
+	registry.registeredMutex.RLock()
+	defer registry.registeredMutex.RUnlock()
 	return registry.registeredAddresses[address]
 }
 
 func (registry *AddressesRegistry) RemovedAddresses() []string {
+	registry.removedMutex.RLock()
+	defer registry.removedMutex.RUnlock()
 	return copyAddresses(registry.removedAddresses)
 }
 
